@@ -366,6 +366,8 @@ def run(ctx):
         seen_cls = set()
         for l in log:
             cls = l[6]
+            if cls not in ("Wrapf", "Wrapc", "Wrapp", "Wrapl"):
+                continue            # (the types-file writer TypeOut is no language wrapper: it has a fixed width of its own)
             want = limits["F_line_length"] if cls == "Wrapf" else limits["C_line_length"]
             ctx.count(1, None)
             if (cls, l[0]) in seen_cls:
